@@ -832,6 +832,7 @@ func (prop) Describe() driver.Description {
 		// directory-modifying system calls and process creation do not scale
 		// across processes in this sandbox; four workers is the measured optimum
 		Workers:    4,
+		RunTimeout: 600,
 		FaultKinds: []string{"process-crash", "fs-error", "short-write", "net-connect-error", "net-bad-status", "net-body-error", "net-truncated-body", "net-flipped-byte"},
 	}
 	if !haveXz {
